@@ -194,7 +194,8 @@ def run_check(pid, tier, seed, args):
     doc = {'property_id': pid, 'tier': tier, 'seed': seed, 'level': level, 'coverage': cov,
            'assumptions': list(getattr(mod, 'ASSUMPTIONS', [])),
            'wall_s': round(time.time() - t0, 2), 'violations': len(new_violations) + (1 if rc and not new_violations else 0)}
-    common.write_evidence(pid, doc)
+    if not args.no_lean:   # debugging runs without the Lean stage never overwrite evidence
+        common.write_evidence(pid, doc)
     print(f'{pid} tier={tier} seed={seed}: evaluations={ctx.evaluations} distinct={len(ctx.nontrivial)} '
           f'theorems={proof["discharged"]}/{proof["obligations"]} corr={ctx.corr_compared} '
           f'mismatch={len(ctx.mismatches)} violations={len(new_violations)} wall={doc["wall_s"]}s')
